@@ -256,6 +256,11 @@ func (e *Engine) fireTimer() bool {
 		if t.stopped || t.fired {
 			continue
 		}
+		// a ticker whose channel is full and has no waiting receiver would only drop
+		// its tick: firing it changes nothing, so it does not count as progress
+		if t.period > 0 && t.ch != nil && len(t.ch.buf) >= t.ch.cap && e.liveWaiter(&t.ch.recvq) == nil {
+			continue
+		}
 		if best == nil || t.at < best.at {
 			best = t
 		}
